@@ -9,6 +9,7 @@ from __future__ import annotations
 
 import ast
 import itertools
+import time
 
 import z3
 
@@ -108,8 +109,10 @@ class Interp:
         self.open_hook = None
         self.builtin_hooks = {}
         self.paths = 0
+        self.deadline = None
         self._solver = z3.Solver()
         self._solver.set("timeout", 1500)  # unknown counts as feasible (explores more, never less)
+        self._solver.set("rlimit", 3000000)
         self.owned_copies = {}  # id(state) -> set of oids already copied; kept simple: copy on every mutation
         from . import models
         self.models = models
@@ -185,6 +188,8 @@ class Interp:
         """Fork on a z3 Bool / Python truth value -> [(bool, state)] with infeasible sides pruned."""
         if isinstance(cond, bool):
             return [(cond, st)]
+        if self.deadline is not None and time.time() > self.deadline:
+            raise Unsupported("budget: symbolic execution time limit")
         cond = z3.simplify(cond)
         if z3.is_true(cond):
             return [(True, st)]
